@@ -33,6 +33,7 @@ package reservation
 import (
 	"fmt"
 	"sort"
+	"strings"
 
 	corev1 "k8s.io/api/core/v1"
 	"k8s.io/apimachinery/pkg/api/resource"
@@ -95,6 +96,8 @@ type c05World struct {
 	live    map[types.UID]bool                // model: reservation uid has an entry in the cache
 	// reservations that were made unavailable / removed while they had assigned pods (non-triviality)
 	wentAway map[types.UID]bool
+	// reservations the cache was handed before they had a node
+	seenUnbound map[types.UID]bool
 	// dimsSince["r/p"]: the dimensions reserved without interruption since pod p was added to reservation r
 	dimsSince map[string]map[corev1.ResourceName]bool
 	uidSeq    int
@@ -105,6 +108,12 @@ func (w *c05World) newUID(prefix string) types.UID {
 	w.uidSeq++
 	return types.UID(fmt.Sprintf("%s-%d", prefix, w.uidSeq))
 }
+
+// the selector index configuration used by the ledger workload
+const (
+	c05IdxPrefix = "idx-"
+	c05IdxKey    = "zone"
+)
 
 var c05RsvLabelPool = []map[string]string{nil, {"idx-a": "1"}, {"idx-b": "2", "zone": "z1"}, {"zone": "z2"}, {"other": "x"}, {"idx-a": "2", "zone": "z1", "other": "y"}}
 
@@ -357,6 +366,9 @@ func (w *c05World) check(where string) {
 			c.Count("ledger_dims_undetermined", 1)
 			continue
 		}
+		if cl := c05OptionsClass(ri.Reservation); cl != "" && len(ri.AssignedPods) > 0 {
+			c.Count("ledger_checks_assigned_options_"+cl, 1)
+		}
 		want := corev1.ResourceList{}
 		for p := range ri.AssignedPods {
 			for n, q := range w.reqs[p] {
@@ -460,6 +472,64 @@ func (w *c05World) check(where string) {
 		}
 		if issues := cache.checkReservationSelectorIndexConsistency(); len(issues) > 0 {
 			c.Count("selector_index_self_audit_issues", len(issues))
+		}
+		// completeness: the index is configured (by this harness) with the key prefix "idx-" and the exact key
+		// "zone"; every live reservation placed on a node must be listed under its CURRENT node for each of
+		// its current labels that the configuration covers, and under no other node
+		for uid, ri := range cache.reservationInfos {
+			n := ri.GetNodeName()
+			if n == "" {
+				continue
+			}
+			for k, v := range ri.GetObject().GetLabels() {
+				covered := false
+				if strings.HasPrefix(k, c05IdxPrefix) {
+					covered = true
+					if !cache.nodesByPrefix[c05IdxPrefix][n].Has(uid) {
+						c.Fail("C05/index/selector-missing", "%s: live reservation %s on node %s carries label %s=%s but the selector index (prefix %q) does not list it under that node", where, uid, n, k, v, c05IdxPrefix)
+					}
+				}
+				if k == c05IdxKey {
+					covered = true
+					if !cache.nodesByExactKV[k][v][n].Has(uid) {
+						c.Fail("C05/index/selector-missing", "%s: live reservation %s on node %s carries label %s=%s but the selector index (exact key) does not list it under that node", where, uid, n, k, v)
+					}
+				}
+				if covered {
+					c.Count("selector_index_completeness_checks", 1)
+					nodes, hit := cache.FilterByReservationSelector(map[string]string{k: v})
+					found := false
+					for _, x := range nodes {
+						if x == n {
+							found = true
+						}
+					}
+					if !hit || !found {
+						c.Fail("C05/index/selector-missing", "%s: FilterByReservationSelector({%s: %s}) = %v (hit=%v) does not offer node %s on which live reservation %s carries that label", where, k, v, nodes, hit, n, uid)
+					}
+				}
+			}
+		}
+		stale := func(bucket, n string, uid types.UID) {
+			if ri := cache.reservationInfos[uid]; ri != nil && ri.GetNodeName() != n {
+				c.Fail("C05/index/selector-stale-node", "%s: selector index %s lists reservation %s under node %s but it is placed on %q", where, bucket, uid, n, ri.GetNodeName())
+			}
+		}
+		for p, byNode := range cache.nodesByPrefix {
+			for n, set := range byNode {
+				for uid := range set {
+					stale("prefix "+p, n, uid)
+				}
+			}
+		}
+		for k, byValue := range cache.nodesByExactKV {
+			for v, byNode := range byValue {
+				for n, set := range byNode {
+					for uid := range set {
+						stale(k+"="+v, n, uid)
+					}
+				}
+			}
 		}
 	}
 	// the same through the cache's read API
